@@ -581,6 +581,11 @@ def r_id_discipline(ctx: Ctx, rule: str):
         bad = [m for m in seg if ctx.effective(m) or m.user]
         rep.ob(rule, "reading the id and incrementing the counter form one atomic segment (no two tasks can read the same value)", not bad, func=f,
                construct=bad[0] if bad else "read .. increment")
+        # creating the task is a point where the new task's own code may run at once (a loop with asyncio.eager_task_factory runs the
+        # first step of the coroutine inside create_task): a worker that spawns into its own pool there would read the same counter value
+        eager = [m for m in seg if m.op == "call" and m.callee is not None and m.callee.kind == "ext" and m.callee.name in ("asyncio.tasks.create_task", "asyncio.create_task")]
+        rep.ob(rule, "the counter is incremented before the task is created (with an eager task factory the new task's first step runs inside create_task)",
+               not eager, func=f, construct=eager[0] if eager else "read .. increment: no create_task")
         # read precedes increment (the id is the old value), or increment precedes read consistently minus one: only the first is accepted
         for r in reads:
             for i in incs:
